@@ -350,6 +350,8 @@ def build(spec: dict, share: dict | None = None, inputs: dict | None = None):
             share[key] = cls(**v)
         return share[key]
 
+    if share is None and spec.get("_share_body"):
+        share = {}          # equal-valued body specs of one document are ONE RTFBody object
     kw = {}
     if "figure" in spec:
         fig = dict(spec["figure"])
